@@ -765,6 +765,378 @@ def sampler_sorted_oracle(chk, r):
                           {"genotypes": g.tolist()}, "C14/call/sampler-unsorted")
 
 
+# --------------------------------------------------------------------------------------
+# program level: the application glue between the samplers and the VCF columns
+# --------------------------------------------------------------------------------------
+
+PATTERNS = ("agree-then-differ", "differ-then-agree", "random")
+
+
+def synth_regimes(r, n_chains, n_steps, switch, pattern, pool):
+    """per chain a list of `n_steps` indices into `pool` (>= 4 genotypes): before step `switch` a chain follows its
+    first regime, afterwards its second (85 % the regime's genotype, otherwise any genotype of the pool)"""
+    k = len(pool)
+    out = []
+    for c in range(n_chains):
+        own = 1 + (c % (k - 1))
+        if pattern == "agree-then-differ":
+            pre, post = 0, own
+        elif pattern == "differ-then-agree":
+            pre, post = own, 0
+        else:
+            pre = post = r.randrange(k)
+        out.append([(pre if i < switch else post) if r.random() < 0.85 else r.randrange(k) for i in range(n_steps)])
+    return out
+
+
+class Spy:
+    """Observes what the sampler hands to the program and what the program hands to the record formatter.
+
+    `<Sampler>.fit` is wrapped: the FULL trace it returns is recorded (a copy), optionally it is replaced by a
+    synthetic trace of the same class and shape (chains that agree during the burn-in and differ afterwards, or the
+    other way round).  `LocusAssemblyData.format_vcf_record` is wrapped: the traces fitted since the previous
+    record belong to this record; the internal per-sample values are stored next to them."""
+
+    def __init__(self, program, burn, pattern, r):
+        self.program, self.burn, self.pattern, self.r = program, burn, pattern, r
+        self.pending, self.records = [], []
+
+    def __enter__(self):
+        from mchap.application import baseclass
+        from mchap.assemble.mcmc import DenovoMCMC
+        from mchap.assemble.classes import GenotypeMultiTrace
+        from mchap.calling.classes import CallingMCMC, GenotypeAllelesMultiTrace
+        from mchap.pedigree.classes import PedigreeCallingMCMC, PedigreeAllelesMultiTrace
+        spy, r = self, self.r
+        self._cls = {"assemble": DenovoMCMC, "call": CallingMCMC, "call-pedigree": PedigreeCallingMCMC}[self.program]
+        self._fit = self._cls.fit
+        self._data = baseclass.LocusAssemblyData
+        self._fmt = self._data.format_vcf_record
+        orig = self._fit
+
+        def fit_asm(model, reads, read_counts=None, initial=None):
+            if spy.pattern and reads.shape[1] > 0:
+                n_alleles = [int(x) for x in model.n_alleles]
+                haps = [tuple([0] * len(n_alleles))]
+                for _ in range(40):
+                    if len(haps) >= 4:
+                        break
+                    h = tuple(r.randrange(n) for n in n_alleles)
+                    if h not in haps:
+                        haps.append(h)
+                pool = [[r.choice(haps) for _ in range(model.ploidy)] for _ in range(4)]
+                plan = synth_regimes(r, model.chains, model.steps, spy.burn, spy.pattern, pool)
+                g = np.zeros((model.chains, model.steps, model.ploidy, len(n_alleles)), dtype=np.int8)
+                for c, ch in enumerate(plan):
+                    for i, k in enumerate(ch):
+                        gg = list(pool[k]); r.shuffle(gg)
+                        g[c, i] = gg
+                tr = GenotypeMultiTrace(g, np.zeros(g.shape[:2]))
+            else:
+                tr = orig(model, reads, read_counts=read_counts, initial=initial)
+            spy.pending.append({"genotypes": np.array(tr.genotypes, copy=True), "synthetic": bool(spy.pattern and reads.shape[1] > 0),
+                                "chains": int(model.chains), "steps": int(model.steps)})
+            return tr
+
+        def fit_call(model, reads, read_counts=None, initial=None):
+            n_hap = len(model.haplotypes)
+            if spy.pattern and reads.shape[1] > 0:
+                pool = [sorted(r.randrange(n_hap) for _ in range(model.ploidy)) for _ in range(4)]
+                plan = synth_regimes(r, model.chains, model.steps, spy.burn, spy.pattern, pool)
+                g = np.array([[pool[k] for k in ch] for ch in plan], dtype=np.int8 if n_hap <= 127 else np.int16)
+                tr = GenotypeAllelesMultiTrace(g, np.full(g.shape[:2], np.nan), n_hap)
+            else:
+                tr = orig(model, reads, read_counts=read_counts, initial=initial)
+            spy.pending.append({"genotypes": np.array(tr.genotypes, copy=True), "synthetic": bool(spy.pattern and reads.shape[1] > 0),
+                                "n_hap": n_hap, "chains": int(model.chains), "steps": int(model.steps)})
+            return tr
+
+        def fit_ped(model, sample_reads, sample_read_counts, initial=None):
+            n_hap = len(model.haplotypes)
+            pl = [int(x) for x in model.sample_ploidy]
+            if spy.pattern and sample_reads.shape[2] > 0:
+                g = np.full((model.chains, model.steps, len(pl), max(pl)), -1, dtype=np.int16)
+                for j, p in enumerate(pl):
+                    pool = [sorted(r.randrange(n_hap) for _ in range(p)) for _ in range(4)]
+                    plan = synth_regimes(r, model.chains, model.steps, spy.burn, spy.pattern, pool)
+                    for c, ch in enumerate(plan):
+                        for i, k in enumerate(ch):
+                            g[c, i, j, :p] = pool[k]
+                tr = PedigreeAllelesMultiTrace(g, n_allele=n_hap)
+            else:
+                tr = orig(model, sample_reads=sample_reads, sample_read_counts=sample_read_counts, initial=initial)
+            spy.pending.append({"genotypes": np.array(tr.genotypes, copy=True), "synthetic": bool(spy.pattern and sample_reads.shape[2] > 0),
+                                "n_hap": n_hap, "ploidies": pl, "chains": int(model.chains), "steps": int(model.steps)})
+            return tr
+
+        def fmt(data):
+            loc = data.locus
+            offs = [int(p) - int(loc.start) for p in loc.positions]
+            spy.records.append({
+                "key": (loc.contig, int(loc.start) + 1), "fits": spy.pending, "samples": list(data.samples),
+                "ploidy": [int(data.sample_ploidy[s]) for s in data.samples],
+                "offsets": offs, "snv_alleles": [tuple(a) for a in loc.alleles],
+                "info": {f.id: v for f, v in data.infodata.items()},      # all internal values, requested or not
+                "format": {f.id: [data.sampledata[f].get(s) for s in data.samples] for f in data.formatfields},
+            })
+            spy.pending = []
+            return spy._fmt(data)
+
+        self._cls.fit = {"assemble": fit_asm, "call": fit_call, "call-pedigree": fit_ped}[self.program]
+        self._data.format_vcf_record = fmt
+        return self
+
+    def __exit__(self, *a):
+        self._cls.fit = self._fit
+        self._data.format_vcf_record = self._fmt
+
+
+def _num(t):
+    return None if t in (".", "", None) else float(t)
+
+
+def check_program_sample(chk, program, case, chains, burn, thr, ploidy, kind, got, txt, freq=None):
+    """one sample of one record: `chains` = the FULL recorded trace as lists of genotypes in the record's allele space
+    (assemble: tuples of haplotype tuples; callers: tuples of allele numbers); `got` = internal values handed to the
+    formatter, `txt` = the printed sample column.  Everything is recomputed from `chains` with exactly `burn` steps
+    removed from every chain."""
+    canon = lambda g: tuple(sorted(g))
+    sig = f"C14/cli-{program}/"
+    cnt, n = empirical(chains, burn, canon)
+    expected = {g: Fraction(k, n) for g, k in cnt.items()}
+    tot = support_totals(cnt, n)
+    stops, smax, smargin = top_keys(tot)
+    chk.case(["cli", program, case["record"][:300], case["sample"], burn, thr], len(cnt) >= 2)
+    # ---- SPM / GPM / GT
+    spm, gpm, gt = got.get("SPM"), got.get("GPM"), got.get("GT")
+    if spm is None or not (abs(float(spm) - float(smax)) <= 1e-9):
+        chk.violation(f"{program}: SPM is not the largest total probability of a set of distinct alleles over the retained steps "
+                      f"(trace minus exactly {burn} steps per chain)", {**case, "SPM": spm, "expected": str(smax)}, sig + "SPM")
+    opts = {}
+    for key in (tot if smargin else stops):
+        if smargin and abs(float(tot[key]) - float(smax)) >= 1e-9:
+            continue
+        inside = {g: p for g, p in expected.items() if frozenset(g) == key}
+        gtops, gmax, _ = top_keys(inside)
+        for g in gtops:
+            opts[g] = gmax
+    if gpm is None or not any(exact_eq(gpm, p) for p in opts.values()):
+        chk.violation(f"{program}: GPM is not the probability of the most probable genotype of the mode support over the retained steps",
+                      {**case, "GPM": gpm, "expected": sorted({str(p) for p in opts.values()})}, sig + "GPM")
+    if gt is not None:
+        if gt not in opts or not exact_eq(gpm if gpm is not None else -1.0, opts[gt]):
+            chk.violation(f"{program}: GT is not a most probable genotype of the mode support of the retained steps (or GPM is not its probability)",
+                          {**case, "GT": str(gt), "GPM": gpm, "candidates": {str(k): str(v) for k, v in list(opts.items())[:6]}}, sig + "GT")
+    else:
+        chk.count(f"cli:{program}:GT-with-unlisted-haplotype(not compared)")
+    # ---- MCI
+    flag = got.get("MCI")
+    n_steps = len(chains[0])
+    exact_ok = pow2(n_steps - burn) and dyadic(thr)
+    allowed = documented_flags(chains, burn, Fraction(thr), ploidy, canon, kind, exact_ok)
+    chk.count(f"cli:{program}:MCI={flag}")
+    if allowed is None:
+        chk.count(f"cli:{program}:incongruence-float-margin(not compared)")
+    elif flag is None or int(flag) not in allowed:
+        chk.violation(f"{program}: MCI differs from the chain incongruence of the retained steps (trace minus exactly {burn} steps per chain; "
+                      "0 = at most one distinct qualifying chain mode, 2 = union of the modes' alleles exceeds the ploidy, else 1)",
+                      {**case, "MCI": flag, "documented": sorted(allowed)},
+                      SIG_F10 if (program == "assemble" and flag == 2 and 2 not in allowed) else sig + "MCI")
+    else:
+        chk.count(f"cli:{program}:MCI-compared expected={sorted(allowed)}")
+    # ---- allele frequencies / counts / occurrence
+    if freq is not None:
+        alleles, afp, acp, aop = freq
+        for i, a in enumerate(alleles):
+            e_c = Fraction(sum(g.count(a) for ch in chains for g in ch[burn:]), n)
+            e_o = Fraction(sum(1 for ch in chains for g in ch[burn:] if a in g), n)
+            bad = []
+            if afp is not None and not (abs(float(afp[i]) - float(e_c / ploidy)) <= 1e-9):
+                bad.append(("AFP", float(afp[i]), float(e_c / ploidy)))
+            if acp is not None and not (abs(float(acp[i]) - float(e_c)) <= 1e-9 * max(1, ploidy)):
+                bad.append(("ACP", float(acp[i]), float(e_c)))
+            if aop is not None and not (abs(float(aop[i]) - float(e_o)) <= 1e-9):
+                bad.append(("AOP", float(aop[i]), float(e_o)))
+            if bad:
+                chk.violation(f"{program}: {bad[0][0]} of allele {i} is not the functional of the retained steps",
+                              {**case, "allele": i, "impl_vs_expected": bad}, sig + "frequencies")
+                break
+        chk.count(f"cli:{program}:frequencies-compared")
+    # ---- the printed column (3 decimals)
+    tol = 0.0005 + 1e-9
+    t_spm, t_gpm, t_mci = _num(txt.get("SPM")), _num(txt.get("GPM")), txt.get("MCI")
+    if t_spm is None or not (abs(t_spm - float(smax)) <= tol) or t_gpm is None or not any(abs(t_gpm - float(p)) <= tol for p in opts.values()):
+        chk.violation(f"{program}: printed SPM / GPM differ from the functionals of the retained steps",
+                      {**case, "text": {k: txt.get(k) for k in ("GT", "GPM", "SPM", "MCI")}, "SPM_expected": float(smax),
+                       "GPM_expected": sorted({float(p) for p in opts.values()})}, sig + "text")
+    if allowed is not None and (t_mci is None or not t_mci.isdigit() or int(t_mci) not in allowed):
+        if not (program == "assemble" and t_mci == "2" and 2 not in allowed):      # F10 is reported once, above
+            chk.violation(f"{program}: printed MCI differs from the chain incongruence of the retained steps",
+                          {**case, "text_MCI": t_mci, "documented": sorted(allowed)}, sig + "text-MCI")
+
+
+def program_runs(chk, r, S, ds, work, program, base_argv, n_runs, in_recs=None, want_patterns=None):
+    """run one program `n_runs` times with varying burn-in / chains / threshold / synthetic traces and compare"""
+    combos = [(40, 39, 3), (40, 10, 3), (40, 0, 1), (40, 30, 2), (40, 39, 2), (40, 10, 1), (64, 32, 3), (40, 0, 3)]
+    for k in range(n_runs):
+        steps, burn, chains = combos[k % len(combos)]
+        pattern = (want_patterns or (PATTERNS + (None,)))[k % len(want_patterns or (PATTERNS + (None,)))]
+        thr = [0.6, 0.3, 0.9, 0.5][k % 4]
+        rep = ["AFP", "ACP", "AOP"] if k % 2 == 0 else (["GP"] if k % 4 == 1 else [])
+        argv = base_argv + ["--mcmc-steps", str(steps), "--mcmc-burn", str(burn), "--mcmc-chains", str(chains),
+                            "--mcmc-chain-incongruence-threshold", str(thr), "--mcmc-seed", str(r.randrange(1, 10 ** 6))]
+        if rep:
+            argv += ["--report", *rep]
+        tag = {"program": program, "steps": steps, "burn": burn, "chains": chains, "threshold": thr, "traces": pattern or "sampler",
+               "report": rep, "seed": C.seed()}
+        with Spy(program, burn, pattern, r) as spy:
+            out, code, err = S.run_program(argv)
+        chk.count(f"cli:{program}:runs"); chk.count(f"cli:{program}:traces={pattern or 'sampler'}")
+        chk.count(f"cli:burn={burn}/steps={steps}/chains={chains}")
+        if code != 0:
+            chk.violation(f"mchap {program} raised: {err[:300]}", {**tag, "error": err[:1500]}, f"C14/cli-{program}/crash")
+            continue
+        _, recs = S.parse_vcf_text(out)
+        if len(recs) != len(spy.records):
+            chk.violation(f"{program}: {len(recs)} records printed, {len(spy.records)} formatted", tag, f"C14/cli-{program}/records")
+            continue
+        for rec, cap in zip(recs, spy.records):
+            fits = cap["fits"]
+            n_s = len(cap["samples"])
+            if not fits:
+                chk.count(f"cli:{program}:record-without-sampler-call")
+                continue
+            if (program == "call-pedigree" and len(fits) != 1) or (program != "call-pedigree" and len(fits) != n_s):
+                chk.violation(f"{program}: {len(fits)} sampler calls for a record with {n_s} samples", {**tag, "record": rec["line"][:300]},
+                              f"C14/cli-{program}/fits")
+                continue
+            F = cap["format"]
+            n_all = 1 + len(rec["ALT"])
+            if program == "assemble":
+                # haplotype (allele numbers per SNV) of every listed allele
+                seqs = [rec["REF"]] + rec["ALT"]
+                try:
+                    listed = [tuple(al.index(sq[o]) for o, al in zip(cap["offsets"], cap["snv_alleles"])) for sq in seqs]
+                except (ValueError, IndexError):
+                    chk.violation("assemble: a listed allele uses a base that is not an allele of the input variant", {**tag, "record": rec["line"][:300]},
+                                  "C14/cli-assemble/alleles")
+                    continue
+                labels = None
+            else:
+                prior = cap["info"].get("AFPRIOR")
+                masked = bool(cap["info"].get("REFMASKED"))
+                if prior is None or isinstance(prior, dict) or len(prior) != n_all:
+                    chk.violation(f"{program}: the internal prior frequencies do not have one entry per listed allele", {**tag, "record": rec["line"][:300]},
+                                  f"C14/cli-{program}/labels")
+                    continue
+                keep = [i for i in range(n_all) if not (float(prior[i]) == 0.0 or (i == 0 and masked))]
+                labels = keep if len(keep) != n_all else list(range(n_all))
+                if len(labels) != fits[0]["n_hap"]:
+                    chk.violation(f"{program}: the sampler ran on {fits[0]['n_hap']} haplotypes, the record keeps {len(labels)} (prior > 0, reference not masked)",
+                                  {**tag, "record": rec["line"][:300]}, f"C14/cli-{program}/labels")
+                    continue
+                if len(labels) != n_all:
+                    chk.count(f"cli:{program}:relabelled-record")
+            for j, sname in enumerate(cap["samples"]):
+                p = cap["ploidy"][j]
+                fit = fits[0] if program == "call-pedigree" else fits[j]
+                g = fit["genotypes"]
+                if g.shape[0] != chains or g.shape[1] != steps:
+                    chk.violation(f"{program}: the trace has shape {g.shape[:2]}, requested chains x steps = {chains} x {steps}",
+                                  {**tag, "record": rec["line"][:300]}, f"C14/cli-{program}/trace-shape")
+                    break
+                if program == "assemble":
+                    rows = [[tuple(tuple(int(x) for x in h) for h in st) for st in ch] for ch in g]
+                    kind = "asm"
+                    if g.shape[3] == 0:
+                        chk.count("cli:assemble:n_base=0")
+                elif program == "call":
+                    rows = [[tuple(labels[int(a)] for a in st) for st in ch] for ch in g]
+                    kind = "call"
+                else:
+                    rows = [[tuple(labels[int(a)] for a in st[j][:p]) for st in ch] for ch in g]
+                    kind = "call"
+                    if any(a < 0 for st in g[0][:1] for a in st[j][:p]) or any(a >= 0 for a in g[0][0][j][p:]):
+                        chk.count("cli:call-pedigree:unexpected-padding")
+                if any(len(st) != p for ch in rows for st in ch):
+                    chk.violation(f"{program}: a step of the trace does not have the sample's ploidy", {**tag, "sample": sname}, f"C14/cli-{program}/ploidy")
+                    continue
+                gt_arr = F["GT"][j]
+                gt_i = [int(a) for a in gt_arr]
+                if program == "assemble":
+                    gt = tuple(sorted(listed[a] for a in gt_i)) if all(0 <= a < n_all for a in gt_i) else None
+                    alleles = listed
+                else:
+                    gt = tuple(sorted(gt_i))
+                    alleles = list(range(n_all))
+                got = {"GT": gt, "GPM": F["GPM"][j], "SPM": F["SPM"][j], "MCI": F["MCI"][j]}
+                freq = None
+                if "AFP" in F:
+                    freq = (alleles, F["AFP"][j], F["ACP"][j] if "ACP" in F else None, F["AOP"][j] if "AOP" in F else None)
+                    if any(len(x) != n_all for x in freq[1:] if x is not None):
+                        chk.violation(f"{program}: AFP/ACP/AOP do not have one entry per listed allele", {**tag, "record": rec["line"][:300]},
+                                      f"C14/cli-{program}/frequencies")
+                        freq = None
+                case = {**tag, "record": rec["line"][:400], "sample": sname, "ploidy": p, "synthetic": fit["synthetic"],
+                        "trace": [[str(st) for st in ch] for ch in rows] if steps * chains <= 200 else "large"}
+                try:
+                    check_program_sample(chk, program, case, rows, burn, thr, p, kind, got, rec["samples"][j], freq)
+                except Exception as e:   # noqa: BLE001
+                    chk.violation(f"{program}: summaries of a recorded trace could not be evaluated ({e!r})", case, f"C14/cli-{program}/raises")
+                # GP: entry at the VCF index of a fully listed genotype = its relative frequency
+                if "GP" in F and F["GP"][j] is not None and np.ndim(F["GP"][j]) == 1 and len(F["GP"][j]) > 1:
+                    gp = F["GP"][j]
+                    cnt, n = empirical(rows, burn, lambda x: tuple(sorted(x)))
+                    size = math.comb(n_all + p - 1, p)
+                    exp = {}
+                    for gg, kk in cnt.items():
+                        if program == "assemble":
+                            if any(h not in listed for h in gg):
+                                continue
+                            if "REFMASKED" in rec["INFO"] and listed[0] in gg:
+                                continue
+                            idx = vcf_index([listed.index(h) for h in gg])
+                        else:
+                            idx = vcf_index(list(gg))
+                        exp[idx] = Fraction(kk, n)
+                    chk.count(f"cli:{program}:GP-compared")
+                    if len(gp) != size or any(not exact_eq(gp[i], exp.get(i, Fraction(0))) for i in range(size)):
+                        chk.violation(f"{program}: GP is not the G-ordered array of the relative frequencies of the retained steps",
+                                      {**case, "GP": [float(x) for x in gp][:60], "expected": {k: str(v) for k, v in exp.items()}},
+                                      f"C14/cli-{program}/GP")
+
+
+def cli_part(chk, r, tier):
+    import os
+    import shutil
+    import tempfile
+    from . import synth as S
+    from .c07 import add_prior_field, pedigree_file
+    work = tempfile.mkdtemp(prefix="verif-c14-")
+    n_ds = {"warm": 1, "quick": 1, "thorough": 4}[tier]
+    n_asm, n_call, n_ped = {"warm": (2, 1, 1), "quick": (8, 6, 6), "thorough": (16, 12, 12)}[tier]
+    try:
+        for d in range(n_ds):
+            sub = C.rng(f"{PROP}:cli{d}")
+            ds = S.make_dataset(sub, os.path.join(work, f"ds{d}"), n_samples=3, n_loci=3, ploidies=(2, 4) if d % 2 == 0 else (2, 3, 4),
+                                max_snvs=3, features={"nodepth"}, depth=(6, 14))
+            program_runs(chk, r, S, ds, work, "assemble", ds.assemble_argv(), n_asm)
+            out, code, err = S.run_program(ds.assemble_argv("--mcmc-steps", "200", "--mcmc-burn", "80"))
+            if code != 0:
+                chk.violation(f"mchap assemble raised: {err[:300]}", {"error": err[:1500]}, "C14/cli-assemble/crash")
+                continue
+            pf_text, _ = add_prior_field(sub, out, "mixed")
+            hap_gz = S.bgzip_tabix_vcf(S.write_text(os.path.join(work, f"hap{d}.vcf"), pf_text))
+            base = ["--bam", *ds.bams, "--ploidy", ds.ploidy_file, "--haplotypes", hap_gz]
+            for prior in ([], ["--prior-frequencies", "PF"]):
+                program_runs(chk, r, S, ds, work, "call", ["mchap", "call", *base, *prior], n_call // 2)
+                ped, tau = pedigree_file(sub, ds, work, f"c14_{d}")
+                program_runs(chk, r, S, ds, work, "call-pedigree",
+                             ["mchap", "call-pedigree", *base, "--sample-parents", ped, "--gamete-ploidy", tau, *prior], n_ped // 2)
+    finally:
+        shutil.rmtree(work, ignore_errors=True)
+
+
 def run(tier, replay=None):
     from mchap.assemble.classes import GenotypeMultiTrace
     from mchap.calling.classes import GenotypeAllelesMultiTrace
@@ -838,4 +1210,5 @@ def run(tier, replay=None):
     run_ped(chk, drv, r, n_small, PedigreeAllelesMultiTrace)
     if tier != "warm":
         sampler_sorted_oracle(chk, r)
+    cli_part(chk, C.rng(PROP + ":cli"), tier)
     return chk.finish()
